@@ -120,3 +120,10 @@ WEXPORT int64_t w_classify(const uint8_t* toks, const uint64_t* lens, size_t nto
   }
   W_CATCH_ALL
 }
+WEXPORT int64_t w_exp_count(const uint8_t* toks, const uint64_t* lens, size_t ntok) {
+  try {
+    Arguments a(make_tokens(toks, lens, ntok));
+    return a.positional.size() + 16 * a.named.size();
+  }
+  W_CATCH_ALL
+}
